@@ -1,6 +1,7 @@
 (* Property theorems of the Exec cluster (C02, C06, ...).  Nothing but statements, [exact]
    and Print Assumptions.  Scope of the model: see the header of Exec/Model.v. *)
-From FC Require Import Exec.Model Exec.ProofsMap Exec.Proofs02 Exec.Proofs06.
+From FC Require Import Exec.Model Exec.ProofsMap Exec.Proofs02 Exec.Proofs06 Exec.Proofs04 Exec.Proofs03
+  Exec.Proofs01.
 Open Scope N_scope.
 
 (* ------------------------------------------------------------------ C02 *)
@@ -62,3 +63,122 @@ Theorem no_reexecution : forall P bs st st' ids,
   processed st' = rev ids ++ processed st.
 Proof. exact no_reexecution_all. Qed.
 Print Assumptions no_reexecution.
+
+(* ------------------------------------------------------------------ C03 *)
+(* Production (relayer disabled): the block is  non-mint transactions ++ [one mint]; the
+   mint's index is the number of preceding transactions, its gas price the block's, its
+   recipient the configured one; on runs without a late failure (class E1) its amount is
+   the sum of the fees of the included transactions, 0 for the zero recipient. *)
+Theorem mint_last_and_exact : forall P hdr c l bs ma st p,
+  l_enabled l = false -> p_max_tx_count P < u16max ->
+  produce_block P hdr c l bs ma st = (p, None) ->
+  exists txs m,
+    r_blk (pr_run p) = txs ++ [m] /\ Forall nonmint txs /\ t_mint m = true /\
+    t_mint_index m = N.of_nat (length txs) /\ t_mint_price m = c_gas_price c /\
+    t_mint_cid m = c_recipient c /\
+    (clean (r_d (pr_run p)) = true ->
+     t_mint_amount m = if c_recipient c =? 0 then 0 else sumfee (tx_status (r_d (pr_run p)))).
+Proof. exact mint_last_and_exact_all. Qed.
+Print Assumptions mint_last_and_exact.
+
+(* Limits, for ANY sequence of source answers [bs] (the source may ignore every hint):
+   under the VM-oracle hypothesis used gas <= max_gas, the gas of the included
+   transactions stays within block_gas_limit and the transaction count within u16::MAX.
+   For the size only the u32 bound of the checked addition holds ... *)
+Theorem limits_respected : forall P hdr c l bs ma st p,
+  l_enabled l = false -> p_max_tx_count P < u16max ->
+  Forall (Forall gas_ok) bs ->
+  produce_block P hdr c l bs ma st = (p, None) ->
+  sumgas (tx_status (r_d (pr_run p))) <= p_gas_limit P /\
+  N.of_nat (length (r_blk (pr_run p))) <= u16max /\
+  tx_count (r_d (pr_run p)) = N.of_nat (length (r_blk (pr_run p))) /\
+  used_size (r_d (pr_run p)) <= u32max.
+Proof. exact limits_respected_all. Qed.
+Print Assumptions limits_respected.
+
+(* ... and block_transaction_size_limit itself is not enforced (class E2). *)
+Theorem size_limit_refuted :
+  exists P hdr c l bs ma st p,
+    l_enabled l = false /\ Forall (Forall gas_ok) bs /\
+    produce_block P hdr c l bs ma st = (p, None) /\
+    size_limit32 P < used_size (r_d (pr_run p)).
+Proof. exact size_limit_refuted_all. Qed.
+Print Assumptions size_limit_refuted.
+
+(* Validation (relayer disabled) accepts only blocks of the shape  non-mint ++ [mint]  whose
+   mint has the expected index and the amount = sum of the fees charged in the block at the
+   mint's own gas price (0 for the zero recipient). *)
+Theorem validate_rejects_bad_mint : forall P hdr l blk st s,
+  l_enabled l = false ->
+  validate_block P hdr l blk st = (s, None) ->
+  exists txs m, b_txs blk = txs ++ [m] /\ Forall (fun a => nonmint (a_tx a)) txs /\
+    t_mint (a_tx m) = true /\ t_mint_index (a_tx m) = N.of_nat (length txs) /\
+    t_mint_amount (a_tx m) =
+      (if t_mint_cid (a_tx m) =? 0 then 0 else sumfee (tx_status (r_d s))) /\
+    coinbase (r_d s) = sumfee (tx_status (r_d s)).
+Proof. exact validate_rejects_bad_mint_all. Qed.
+Print Assumptions validate_rejects_bad_mint.
+
+(* ------------------------------------------------------------------ C04 *)
+(* A reverted script (utxo validation on): contract-state log and outbox untouched, fee
+   charged, Failed status; all coin inputs and non-retryable message inputs consumed,
+   message nonces consumed only through non-retryable inputs. *)
+Theorem reverted_effects : forall P hdr a st d d' st' tx' o,
+  p_forbid P = true ->
+  execute_chargeable P hdr a st d = (d', inl (st', tx')) ->
+  a_vm a = Some o -> v_reverted o = true ->
+  cstate st' = cstate st /\
+  message_ids d' = message_ids d /\
+  (exists ug fee, v_fee o = Some (ug, fee) /\ coinbase d' = coinbase d + fee /\
+                  tx_status d' = tx_status d ++ [mkStatus (t_id (a_tx a)) true true ug fee]) /\
+  exists delta, events d' = events d ++ delta /\
+    (forall k ow am s, In (InCoin k ow am s) (t_inputs (a_tx a)) -> In k (consumed_keys delta)) /\
+    (forall n sd rc am dt, In (InMsg n sd rc am dt false) (t_inputs (a_tx a)) -> In n (consumed_msgs delta)) /\
+    (forall n, In n (consumed_msgs delta) ->
+       exists sd rc am dt, In (InMsg n sd rc am dt false) (t_inputs (a_tx a))).
+Proof. exact reverted_effects_all. Qed.
+Print Assumptions reverted_effects.
+
+(* A skipped transaction: storage and block are never changed ... *)
+Theorem skipped_storage_unchanged : forall P hdr gp a s s' e,
+  execute_transaction_and_commit P hdr gp a s = (s', Some e) ->
+  e <> E_TooManyTransactions -> r_st s' = r_st s /\ r_blk s' = r_blk s.
+Proof. exact skipped_storage_unchanged_all. Qed.
+Print Assumptions skipped_storage_unchanged.
+
+(* ... and nothing at all changes when the failure is not a late one ... *)
+Theorem skipped_changes_nothing_partial : forall P hdr gp a s s' e,
+  t_mint (a_tx a) = false ->
+  execute_transaction_and_commit P hdr gp a s = (s', Some e) ->
+  late e = false -> s' = s.
+Proof. exact skipped_changes_nothing_partial_all. Qed.
+Print Assumptions skipped_changes_nothing_partial.
+
+(* ... but a late failure leaves events behind (class E1). *)
+Theorem skipped_changes_nothing_refuted :
+  exists P hdr gp a s s' e,
+    t_mint (a_tx a) = false /\
+    execute_transaction_and_commit P hdr gp a s = (s', Some e) /\
+    events (r_d s') <> events (r_d s).
+Proof. exact skipped_changes_nothing_refuted_all. Qed.
+Print Assumptions skipped_changes_nothing_refuted.
+
+(* ------------------------------------------------------------------ C01 *)
+Theorem produce_then_validate_partial : forall P hdr c l bs ma st p,
+  l_enabled l = false ->
+  produce_block P hdr c l bs ma st = (p, None) ->
+  clean (r_d (pr_run p)) = true ->
+  exists v, validate_block P hdr l (block_of_run (pr_run p)) st = (v, None) /\
+            r_st v = r_st (pr_run p) /\ r_blk v = r_blk (pr_run p) /\
+            r_d v = noskip (r_d (pr_run p)).
+Proof. exact produce_then_validate_partial_all. Qed.
+Print Assumptions produce_then_validate_partial.
+
+Theorem produce_then_validate_refuted :
+  exists P hdr c l bs ma st p v,
+    l_enabled l = false /\
+    produce_block P hdr c l bs ma st = (p, None) /\
+    validate_block P hdr l (block_of_run (pr_run p)) st = (v, None) /\
+    events (r_d v) <> events (r_d (pr_run p)).
+Proof. exact produce_then_validate_refuted_all. Qed.
+Print Assumptions produce_then_validate_refuted.
